@@ -150,8 +150,13 @@ def make_case(r):
     faulty = {}
     if r.random() < 0.12 and n_units:
         faulty[r.randrange(n_units)] = r.choice(["no_store", "no_verify"])
+    # units left in initialisation mode by an earlier, interrupted run (its TERMINATE never came)
+    leftover = {}
+    if r.random() < 0.25 and n_units:
+        for i in r.sample(range(n_units), min(n_units, r.randint(1, 3))):
+            leftover[i] = r.choice(["ENABLED", "WITHDRAWN"])
     return dict(n_units=n_units, kind=kind, readdress=readdress, dry_run=dry_run, pre=pre, permitted=permitted,
-                faulty=faulty)
+                faulty=faulty, positional=r.random() < 0.3, leftover=leftover)
 
 
 def run_case(case, r, res, collect=None):
@@ -164,6 +169,9 @@ def run_case(case, r, res, collect=None):
     for i, sa in enumerate(case["pre"]):
         f = case["faulty"].get(i) or case["faulty"].get(str(i))
         units.append(Gear(short=sa, draw=sched.draw, no_store=(f == "no_store"), no_verify=(f == "no_verify"), name=i))
+    for i, st in (case.get("leftover") or {}).items():
+        units[int(i)].init_state = st
+        units[int(i)].random = r.getrandbits(24)
     # monitor: PROGRAM SHORT ADDRESS reaching a unit that is already WITHDRAWN
     reprogrammed = []
     for u in units:
@@ -184,7 +192,11 @@ def run_case(case, r, res, collect=None):
         kwargs = dict(readdress=case["readdress"], dry_run=case["dry_run"])
         if case["permitted"] is not None:
             kwargs["available_addresses"] = list(case["permitted"])
-        gen = Commissioning(**kwargs)
+        if case.get("positional"):
+            # the documented parameter order: (available_addresses, readdress, dry_run)
+            gen = Commissioning(kwargs.get("available_addresses"), case["readdress"], case["dry_run"])
+        else:
+            gen = Commissioning(**kwargs)
         # the bound depends on the number of rounds the scheduler forced, known only afterwards; run with a
         # generous hard stop and judge afterwards
         hard = 70 + 13 * (len(units) + 1) * (4 * 49 + 8)
